@@ -57,6 +57,8 @@ func C13(ctx *core.Ctx, r *core.Report) {
 	})
 	sites := e.sites("K1 K2 K4")
 	e.record("crash", sites, c13Triage)
+	// where/filter/when text is user input: the xpath lexer must not spin on any of it
+	lexerCycleAdvances(ctx, r, "xpath", e.reach, c13LexTriage, 3)
 	c13KeyArity(ctx, r)
 	c13EqualFormatFirst(ctx, r)
 	parallelIndex(ctx, r, e.reach, func(f *ssa.Function) bool { return c13OutOfScope(f) }, c13ParallelTriage, 5)
@@ -160,4 +162,8 @@ func c13EqualFormatFirst(ctx *core.Ctx, r *core.Report) {
 			"Equal compares two values with Compare before it knows they have the same format: every Compare method asserts its argument to its own kind and panics on another")
 	}
 	r.Floor("equal-format-first", n, 1)
+}
+
+var c13LexTriage = map[string]string{
+	"xpath.lexer.nextToken/loop1": "the driver loop: each turn runs lexBegin, which returns itself only after an accept…() succeeded (a token was emitted and is returned on the next turn) and nil otherwise (the next turn returns the end token)",
 }
